@@ -28,6 +28,15 @@ type Workspace struct {
 	cachedCommodities map[string]bool
 	cachedAccounts    map[string]bool
 	index             *WorkspaceIndex
+	openText          func(path string) (string, bool)
+}
+
+// SetOpenTextSource tells the workspace where to find the text of a file that is open
+// in the editor: such a file is never read from disk.
+func (w *Workspace) SetOpenTextSource(f func(path string) (string, bool)) {
+	w.mu.Lock()
+	defer w.mu.Unlock()
+	w.openText = f
 }
 
 func NewWorkspace(rootURI string, loader *include.Loader) *Workspace {
@@ -410,11 +419,17 @@ func (w *Workspace) addMissingReachableLocked(reachable map[string]bool) bool {
 		if w.index.FileIndex(path) != nil {
 			continue
 		}
-		content, err := os.ReadFile(path)
-		if err != nil {
-			continue
+		var text string
+		if t, ok := w.openTextLocked(path); ok {
+			text = t
+		} else {
+			content, err := os.ReadFile(path)
+			if err != nil {
+				continue
+			}
+			text = string(content)
 		}
-		fileIndex, journal, _ := BuildFileIndexFromContent(path, string(content))
+		fileIndex, journal, _ := BuildFileIndexFromContent(path, text)
 		w.index.SetFileIndex(path, fileIndex)
 		w.updateIncludeEdgesLocked(path, nil, fileIndex.Includes)
 		w.updateResolvedLocked(path, journal)
@@ -424,6 +439,13 @@ func (w *Workspace) addMissingReachableLocked(reachable map[string]bool) bool {
 		w.clearCachesLocked()
 	}
 	return added
+}
+
+func (w *Workspace) openTextLocked(path string) (string, bool) {
+	if w.openText == nil {
+		return "", false
+	}
+	return w.openText(path)
 }
 
 func (w *Workspace) isWorkspaceFileLocked(path string) bool {
